@@ -208,8 +208,10 @@ func compareVersionPrerelease(a, b string) int {
 		return -1
 	}
 
-	x := a
-	y := b
+	// NOTE prerelease of Version does not have the leading '-', which the loop
+	// skips.
+	x := "-" + a
+	y := "-" + b
 
 	for x != "" && y != "" {
 		x, y = x[1:], y[1:] // skip - or .
